@@ -27,3 +27,21 @@ register('C16', 'E3', 'bounded-exhaustive enumeration of populations vs specific
 register('C17', SW[0], SW[1] + '; monotone-best monitor on the structurally elitist set',
          'For the 69 structurally elitist optimizers (under their structural preconditions) no explored execution loses its best cost between consecutive generations.',
          'elitist set is a source-justified subset (mc/elitist.py); NaN-cost executions skipped (C05 reports them)', '3 C17')
+register('C03', 'E1+E4', SW[1] + '; plus exhaustive enumeration of final generations through the real optimize() of a scripted optimizer',
+         'best_solution checked against the last generation on every explored execution, and on every final generation of size <= 5 (6 thorough) over a 5-value cost alphabet with ties in every order and both directions.',
+         'as C01; cost alphabet {-2,-1,0,1,3}', '3 C03')
+register('C04', 'E4+E1', 'explicit-state search over (cycle, rate history) of the stop rule with the real optimize() on a scripted optimizer vs an independent reference; observational monitor on the shared sweep',
+         'Every rate history up to length 4 (5 thorough) over a dyadic alphabet x max_cycles x fitness_error x early_stopping x population shapes: number of cycles, generations, rates and each rate value agree with the rule as stated.',
+         'dyadic rate alphabet; first rate change is r_1 - 0; fresh instance per run', '3 C04')
+register('C06', 'E1+E3', SW[1] + '; integer-coded tasks per (optimizer, encoding) pair against a committed table; finite menu of invalid calls x all optimizers',
+         'Valid side: every explored execution on continuous tasks must return a result (failures keyed by optimizer/exception/function/message); protected integer pairs must not fail wholesale. Invalid side: every invalid call of the menu raises ValueError before any cycle.',
+         'alphabets of DESIGN 2.5; pairs protected = zero failures over seeds 0..9 on the reference tree', '3 C06')
+register('C10', 'E1+E3', SW[1] + '; exhaustive enumeration of regrouping / regeneration helper inputs',
+         'Every generation of every explored execution is non-empty and <= population_size, == for all but the three variable-size optimizers, over population multipliers, odd sizes, cycle budgets, modes and worker counts 1,2,3,4,16.',
+         'exactness not claimed under one-parameter deviations of algorithm parameters; Henry Gas exempt at non-multiple sizes', '3 C10')
+register('C12', 'E1', 'pairs of executions (max f / min -f) under the same choice list, deviation-bounded exhaustive',
+         'For the 83 optimizers that do not read fitness: generation by generation identical positions and exactly negated costs, d=0 over 7 task prototypes x 2 seeds and d<=1 over the initialisation choice points (thorough: all points).',
+         'Ant Lion exempt (reads Agent.fitness); fitness_error=None', '3 C12')
+register('C15', 'E1+E3', SW[1] + ' with per-cycle deep snapshots; exhaustive hand-built histories for the utilities',
+         'evolution[k] equals an independent deep snapshot taken after cycle k on every explored execution; utilities agree with a direct ranking for all ranks and iteration subsets on hand-built histories and on every d=0 result.',
+         'reporting contract = (position, cost, fitness); results without NaN costs', '3 C15')
